@@ -228,6 +228,18 @@ def family_struct(check, tier, worlds, next_cfg):
                     enc_cases.append(('(%s, %s, %s, %s, %s)' % (gc, multi, gty, D.g_val(v), D.g_out(o, D.g_doc)),
                                       'w%d %s _object_to_doc %s %s -> %s' % (wi, D.cfg_name(c), f['name'], short(D.jsonable(v)), short(o))))
                     check.count(('enc', wi, D.cfg_name(c), f['name'], repr(D.jsonable(v))))
+                    # the same value as a DAG: equal object values are ONE instance; the document is a function of
+                    # the value, not of object identity
+                    v2 = D.share_values(rng, [v])[0]
+                    memo = {}
+                    nat2 = D.to_native(w.desc, w.classes, v2, memo)
+                    if memo.get('hits'):
+                        o2 = D.observe(prot._object_to_doc, T, nat2)
+                        if not (o2[0] == 'ok' and not D.doc_in_universe(o2[1])):
+                            enc_cases.append(('(%s, %s, %s, %s, %s)' % (gc, multi, gty, D.g_val(v2), D.g_out(o2, D.g_doc)),
+                                              'w%d %s _object_to_doc %s (%d shared instances) %s -> %s'
+                                              % (wi, D.cfg_name(c), f['name'], memo['hits'], short(D.jsonable(v2)), short(o2))))
+                            check.count(('enc-shared', wi, D.cfg_name(c), f['name'], repr(D.jsonable(v2))))
                     if multi == 'true':
                         continue    # a repeated member is read item by item inside its parent (exercised through objects)
                     docs = []
@@ -458,7 +470,10 @@ def family_serve(check, tier, worlds, next_cfg):
                 for si, s in enumerate(w.sigs):
                     args = gen_args(rng, w, s, c, full=c['list'] or rpc)
                     rets = gen_rets(rng, w, s, c, full=c['list'])
-                    w.returns[s['name']] = tuple(D.to_native(w.desc, w.classes, v) for v in rets)
+                    memo = None
+                    if rng.random() < 0.5:
+                        rets, memo = D.share_values(rng, rets), {}      # instances shared inside and across the results
+                    w.returns[s['name']] = tuple(D.to_native(w.desc, w.classes, v, memo) for v in rets)
                     docs = []
                     styles = [{'key': 'str', 'text': 'str'}, {'key': 'bin', 'text': 'bin'}] if c['proto'] == 'msgpack' else [{}]
                     for st in styles:
@@ -591,15 +606,22 @@ def reason_key(e):
     return type(e).__name__
 
 
-def oracle_case(check, w, c, s, args, rets, style, rpc=False, origin='generated'):
+def oracle_case(check, w, c, s, args, rets, style, rpc=False, origin='generated', share=False):
     """one call built by the documented conventions against the real implementation;
-    returns True iff the property held"""
+    returns True iff the property held.  share: equal object values of the returned values are ONE instance
+    (inside a result and across the results of the call); what is expected does not change"""
     app = w.app(c, rpc)
     name = s['name']
-    w.returns[name] = tuple(D.to_native(w.desc, w.classes, v) for v in rets)
+    memo = {} if share else None
+    w.returns[name] = tuple(D.to_native(w.desc, w.classes, v, memo) for v in rets)
+    if share and not memo.get('hits'):
+        share = False
     base = 'C02|%s%s|iw=%d|as=%s|poly=%d' % (c['proto'], '-rpc' if rpc else '', c['iw'], 'list' if c['list'] else 'dict', c['poly'])
     replay = {'cfg': c, 'rpc': rpc, 'desc': w.desc, 'sig': s, 'args': [D.jsonable(v) for v in args],
-              'rets': [D.jsonable(v) for v in rets], 'style': style, 'origin': origin}
+              'rets': [D.jsonable(v) for v in rets], 'style': style, 'origin': origin, 'share': bool(share),
+              'shared_instances': (memo or {}).get('hits', 0)}
+    shared = '|shared-instance' if share else ''
+    snote = (' [equal objects in the returned values are one shared instance, %d reuses]' % memo['hits']) if share else ''
     if rpc:
         # msgpack-rpc: [type, msgid, method, params]; the parameters are positional, what is inside follows complex_as
         doc = [0, 7, D.ref_key(c, name, style), [D.ref_member(c, w.desc, f, x, style) for f, x in zip(s['params'], args)]]
@@ -611,7 +633,8 @@ def oracle_case(check, w, c, s, args, rets, style, rpc=False, origin='generated'
     body = D.dumps(c, doc)
     replay['request_document'] = repr(doc)
     r = drive(w, app, body, rpc)
-    check.count(('oracle', w.idx, D.cfg_name(c), rpc, name, repr(replay['args']), repr(style)))
+    check.count(('oracle', w.idx, D.cfg_name(c), rpc, name, repr(replay['args']), repr(style), bool(share),
+                 repr(replay['rets']) if share else ''))
     res = r['res']
     kstyle = 'key=%s' % (style.get('key', 'str') if c['proto'] == 'msgpack' else 'str')
     if res[0] != 'call':
@@ -638,10 +661,10 @@ def oracle_case(check, w, c, s, args, rets, style, rpc=False, origin='generated'
                 break
     od = r['out_doc']
     if od is None or od[0] != 'ok':
-        return not check.fail('%s|response|serialize:%s|%s' % (base, 'none' if od is None else (od[2] if od[0] == 'crash' else od[0]),
-                                                             request_features(s['results'], rets)),
+        return not check.fail('%s|response|serialize:%s|%s%s' % (base, 'none' if od is None else (od[2] if od[0] == 'crash' else od[0]),
+                                                               request_features(s['results'], rets), shared),
                               '%s: the response of %s for return value %s could not be serialized: %s'
-                              % (D.cfg_name(c), name, short([D.jsonable(v) for v in rets], 200), short(od)),
+                              % (D.cfg_name(c), name, short([D.jsonable(v) for v in rets], 200), short(od)) + snote,
                               dict(replay, observed=repr(od))) and ok
     try:
         parsed = D.loads(c, r['out'])
@@ -656,16 +679,18 @@ def oracle_case(check, w, c, s, args, rets, style, rpc=False, origin='generated'
         else:
             dec = D.ref_response_dec(c, w.desc, s, parsed, w.out_name(app, s))
     except (D.RefDecodeError, ValueError, ArithmeticError) as e:
-        return not check.fail('%s|response|undecodable:%s' % (base, reason_key(e)),
+        return not check.fail('%s|response|undecodable:%s%s' % (base, reason_key(e),
+                                                                  '' if reason_key(e) in ('no-message-key', 'unknown-member') else shared),
                               '%s: the response document %s of %s does not decode by the conventions of the request: %s'
-                              % (D.cfg_name(c), short(parsed, 200), name, e),
+                              % (D.cfg_name(c), short(parsed, 200), name, e) + snote,
                               dict(replay, observed=repr(parsed))) and ok
     for p, a, g in zip(s['results'], rets, dec):
         d = py_diff(a, g)
         if d:
             what = ('%s: result %s of %s decodes to %s, returned %s (response %s)'
-                    % (D.cfg_name(c), p['name'], name, short(D.jsonable(g), 160), short(D.jsonable(a), 160), short(parsed, 200)))
-            ok = not check.fail('%s|response|result:%s|%s->%s' % (base, member_shape(p), d[1], d[2]), what,
+                    % (D.cfg_name(c), p['name'], name, short(D.jsonable(g), 160), short(D.jsonable(a), 160), short(parsed, 200))
+                    + snote)
+            ok = not check.fail('%s|response|result:%s|%s->%s%s' % (base, member_shape(p), d[1], d[2], shared), what,
                                 dict(replay, observed=[D.jsonable(x) for x in dec])) and ok
             break
     return ok
@@ -681,7 +706,17 @@ DIRECTED_DESC = {'classes': [
         {'name': 'm', 'ty': ('prim', 'int', True), 'min': 0, 'max': None, 'nillable': True},
         {'name': 'aa', 'ty': ('arr', ('arr', ('prim', 'int', False))), 'min': 0, 'max': 1, 'nillable': True},
         {'name': 'o', 'ty': ('ref', 0), 'min': 1, 'max': 1, 'nillable': True},
-        {'name': 'y', 'ty': ('prim', 'bytes', True), 'min': 0, 'max': 1, 'nillable': True}]}]}
+        {'name': 'y', 'ty': ('prim', 'bytes', True), 'min': 0, 'max': 1, 'nillable': True}]},
+    {'name': 'D', 'parent': None, 'fields': [
+        {'name': 'p', 'ty': ('ref', 0), 'min': 0, 'max': 1, 'nillable': True},
+        {'name': 'q', 'ty': ('ref', 0), 'min': 0, 'max': 1, 'nillable': True}]},
+    {'name': 'C', 'parent': None, 'fields': [
+        {'name': 'x', 'ty': ('ref', 0), 'min': 0, 'max': 1, 'nillable': True},
+        {'name': 'y', 'ty': ('ref', 0), 'min': 0, 'max': 1, 'nillable': True},
+        {'name': 'z', 'ty': ('arr', ('ref', 0)), 'min': 0, 'max': 1, 'nillable': True},
+        {'name': 'm', 'ty': ('ref', 0), 'min': 0, 'max': None, 'nillable': True},
+        {'name': 'd', 'ty': ('ref', 2), 'min': 0, 'max': 1, 'nillable': True},
+        {'name': 'dd', 'ty': ('arr', ('ref', 2)), 'min': 0, 'max': 1, 'nillable': True}]}]}
 
 
 def directed_world():
@@ -700,6 +735,10 @@ def directed_world():
                      P('kResult2', ('prim', 'double', False)), P('kResult3', ('prim', 'bytes', False)),
                      P('kResult4', ('prim', 'text', False))]},
         {'name': 'e', 'params': [], 'results': []},
+        {'name': 'p', 'params': [P('c', ('ref', 3))], 'results': [P('pResult', ('ref', 3))]},
+        {'name': 'q', 'params': [], 'results': [P('qResult0', ('ref', 0)), P('qResult1', ('ref', 0)),
+                                                 P('qResult2', ('arr', ('ref', 0))), P('qResult3', ('ref', 2))]},
+        {'name': 'r', 'params': [], 'results': [P('rResult', ('arr', ('ref', 0)))]},
     ]
     return World(None, 99, desc=DIRECTED_DESC, sigs=sigs)
 
@@ -747,9 +786,29 @@ def directed_cases(check, tier):
          [('int', -(10 ** 300)), ('decimal', Dd('0.000001')), ('double', -0.0), ('bytes', bytes(range(256))), ('text', 'a\nb')]),
         ('e', [], []),
     ]
+    # return values in which ONE instance occurs several times (a DAG, no cycle): at two sibling members, twice in an
+    # array and in a repeated member, in a parent and inside its child's sibling, in two results of one call.  The
+    # document is that of the unshared copy.
+    dsh = ('obj', 2, [a1, a1])
+    c_sh = ('obj', 3, [a1, a1, ('list', [a1, a1]), ('list', [a1, a1, a1]), dsh, ('list', [dsh, dsh])])
+    c_mix = ('obj', 3, [a1, a0, ('list', [a0, a1, a0]), ('list', [a1]), ('obj', 2, [('none',), a1]), ('list', [])])
+    shared_scen = [
+        ('p', [c_sh], [c_sh]),
+        ('p', [c_mix], [c_mix]),
+        ('q', [], [a1, a1, ('list', [a1, a1]), dsh]),
+        ('q', [], [a0, a1, ('list', [a1, a0]), ('obj', 2, [a0, a1])]),
+        ('r', [], [('list', [a1, a1])]),
+        ('r', [], [('list', [a1, a0, a1])]),
+    ]
     for c in D.all_cfgs():
         styles = [{'key': 'str', 'text': 'str'}, {'key': 'bin', 'text': 'str'}, {'key': 'bin', 'text': 'bin'}] \
             if c['proto'] == 'msgpack' else [{}]
+        for name, args, rets in shared_scen:
+            for sh in (False, True):
+                oracle_case(check, w, c, sig[name], args, rets, styles[-1], origin='directed', share=sh)
+                if c['proto'] == 'msgpack' and c['iw']:
+                    oracle_case(check, w, c, sig[name], args, rets, {'key': 'str', 'text': 'str'}, rpc=True,
+                                origin='directed', share=sh)
         for name, args, rets in scen:
             none_multi = any(_has_none_multi(w.desc, p, v) for p, v in zip(sig[name]['params'], args)) or \
                 any(_has_none_multi(w.desc, p, v) for p, v in zip(sig[name]['results'], rets))
@@ -773,9 +832,13 @@ def family_oracle(check, tier, worlds, next_cfg):
                 rets = gen_rets(rng, w, s, c, full=c['list'])
                 style = {'key': rng.choice(['str', 'bin']), 'text': rng.choice(['str', 'bin'])} if c['proto'] == 'msgpack' else {}
                 oracle_case(check, w, c, s, args, rets, style)
+                if any(r['ty'][0] != 'prim' for r in s['results']):
+                    oracle_case(check, w, c, s, args, D.share_values(rng, gen_rets(rng, w, s, c, full=c['list'])), style, share=True)
                 if c['proto'] == 'msgpack' and c['iw']:
-                    oracle_case(check, w, c, s, gen_args(rng, w, s, c, full=True), gen_rets(rng, w, s, c, full=c['list']),
-                                {'key': rng.choice(['str', 'bin']), 'text': rng.choice(['str', 'bin'])}, rpc=True)
+                    oracle_case(check, w, c, s, gen_args(rng, w, s, c, full=True),
+                                D.share_values(rng, gen_rets(rng, w, s, c, full=c['list'])),
+                                {'key': rng.choice(['str', 'bin']), 'text': rng.choice(['str', 'bin'])}, rpc=True,
+                                share=rng.random() < 0.5)
 
 
 def probe_excluded(check):
@@ -828,7 +891,11 @@ def run(check):
         'C08 theorems reused for leaves carried as text: int_of_text_str_int (integers), b64_roundtrip (ByteArray)',
     ]
     check.assumptions = [
-        'value graphs are trees (the id()-based cycle guard of _object_to_doc / _get_member_pairs is not modelled)',
+        'value graphs are acyclic (Spyne cuts genuine cycles by design: out of scope); an instance may be shared (a DAG): '
+        'the model has no object identities, so its document is a function of the value alone; the oracle and the '
+        '_object_to_doc / response correspondences return the same instance at sibling members, repeated in arrays and '
+        'repeated members, inside a sibling subtree and across the results of one call, and expect the document of '
+        'the unshared copy; the translator pins that the id set of the cycle guard is copied per object',
         'body_style is wrapped; no sub_name / order / exc / out_type / type / not_wrapped / simple_field attributes, no File, '
         'Any, AnyDict, XmlAttribute, Uuid, Date/Time/Duration members (dates etc. travel as text exactly like Decimal; '
         'their text codecs are C08 theorems, not re-proved here)',
@@ -904,6 +971,7 @@ def replay(check, path):
     w = World(None, 0, desc=_tuplify_desc(r['desc']), sigs=[sig])
     args = [D.unjsonable(x) for x in r['args']]
     rets = [D.unjsonable(x) for x in r['rets']]
-    ok = oracle_case(check, w, r['cfg'], sig, args, rets, r.get('style') or {}, rpc=r.get('rpc', False), origin='replay')
+    ok = oracle_case(check, w, r['cfg'], sig, args, rets, r.get('style') or {}, rpc=r.get('rpc', False), origin='replay',
+                     share=r.get('share', False))
     check.say('replay %s: %s' % (path, 'the property holds on this input' if ok else 'the property fails on this input'))
     return check.finish()
